@@ -2,6 +2,8 @@
 involution, self-swap no-op; every bottom-up subset the function reads (C12); ghost properties (C03)."""
 from run import Ob
 TK = 'OpenVolumeMesh::TopologyKernel'
+import os
+INLINE = os.environ.get('VERIF_INLINE', '0') == '1'   # inline-array vstd mode: CBMC 6.11 gave unreproducible counterexamples with it (DESIGN 2.15); off
 
 caps = None
 
@@ -63,6 +65,7 @@ def obligations():
             n = 'swap_%s.bu_%s' % (kind, on or 'none')
             cp = dict(v=2, e=2, f=2, c=2, fv=2, cv=2, out=2, inc=2)
             # the swapped kind gets a third slot only in the thorough tier
+            if 'e' in on and kind == 'face': cp.update(v=1, e=1)      # edge-cache configurations of swap_face: one edge (cost, DESIGN 2.12)
             d = mcaps(**cp)
             d.update(CFG_V=int('v' in on), CFG_E=int('e' in on), CFG_F=int('f' in on), CFG_DEFERRED=1, CFG_FAST=0)
             mh = MeshHarness(
@@ -80,7 +83,7 @@ def obligations():
                 op='swap_' + kind, op2='swap_%s2' % kind)
             obs.append(Ob(id='C17.' + n, props=['C17', 'C12', 'C03', 'C01'], tu='kernel', tier='B',
                           roots=[TK + '::swap_%s_indices' % kind], harness=mh, includes=['wf.h', 'view.h'],
-                          copies=[TK], defines=d, unwind=6, covers=2, timeout=600,
+                          copies=[TK], defines=d, inline_vec=INLINE, unwind=6, covers=2, timeout=600,
                           bounds=dict(vertices=2, edges=2, faces=2, cells=2, face_valence=2, cell_valence=2, incident_list=2),
                           note='swap_%s_indices on any WF state within the bounds; bottom-up kinds enabled: %s' % (kind, on or 'none')))
     return obs
